@@ -199,7 +199,7 @@ class SimOps:
             i3_idx = n.ins[3].index if len(n.ins) > 3 and n.ins[3] is not None else self.zero_idx
             kind = n.kind.lower()
             if kind == '__fork__':
-                if not strip_forks:
+                if not strip_forks or i0_idx == self.zero_idx:  # undriven forks are never stripped
                     for o_line in n.outs:
                         if o_line is not None:
                             ops.append((BUF1, o_line.index, i0_idx, i1_idx, i2_idx, i3_idx, *a_ctrl[o_line]))
@@ -224,8 +224,10 @@ class SimOps:
         stems = np.zeros(self.c_locs_len, dtype='int32') - 1  # default to -1: 'no fanout line'
         if strip_forks:
             for f in circuit.forks.values():
+                if f in interface_dict or len(f.ins) == 0 or f.ins[0] is None: continue  # ports and undriven forks are not stripped
                 prev_line = f.ins[0]
-                while prev_line.driver.kind == '__fork__':
+                while prev_line.driver.kind == '__fork__' and prev_line.driver not in interface_dict \
+                        and len(prev_line.driver.ins) > 0 and prev_line.driver.ins[0] is not None:
                     prev_line = prev_line.driver.ins[0]
                 stem_idx = prev_line.index
                 for ol in f.outs:
